@@ -250,6 +250,12 @@ class Program:
     def closures_of(self, path):
         return [b for p, b in self.bodies.items() if p.startswith(path + '::{closure')]
 
+    def free_consts(self):
+        """{path: printed value} of the module-level constants of the crate"""
+        if not hasattr(self, '_free_consts'):
+            self._free_consts = {c['path']: c['val'] for c in self.j.get('items', {}).get('consts', []) if c.get('val')}
+        return self._free_consts
+
     def impl_consts(self, trait_suffix):
         out = {}
         for i in self.impls:
